@@ -151,7 +151,7 @@ package stack
 //@ define demuxKey4(id) = TransportEndpointID{LocalPort: id.LocalPort, LocalAddress: "", RemotePort: 0, RemoteAddress: ""}
 //@ define demuxPick(m, id) = ite(m[id] != nil, m[id], ite(m[demuxKey2(id)] != nil, m[demuxKey2(id)], ite(m[demuxKey3(id)] != nil, m[demuxKey3(id)], m[demuxKey4(id)])))
 
-//@ func (*transportDemuxer).findEndpointLocked props C09
+//@ func (*transportDemuxer).findEndpointLocked props C09 C07
 //@   requires eps != nil
 //@   ensures result == demuxPick(eps.endpoints, id)
 
@@ -164,7 +164,7 @@ package stack
 //@   modifies everything_but(Stack, transportProtocolState, transportDemuxer, map[protocolIDs]*transportEndpoints), ghost(handled)
 
 // deliverPacket hands the packet to exactly the endpoint picked above - once - or to nobody.
-//@ func (*transportDemuxer).deliverPacket props C09
+//@ func (*transportDemuxer).deliverPacket props C09 C07
 //@   requires d != nil && r != nil && d.protocol != nil
 //@   requires forallkey(k, d.protocol, implies(has(d.protocol, k), d.protocol[k] != nil))
 //@   at_call HandlePacket requires has(d.protocol, protocolIDs{r.NetProto, protocol}) && recv == demuxPick(d.protocol[protocolIDs{r.NetProto, protocol}].endpoints, id) && recv != nil
@@ -211,7 +211,7 @@ package stack
 //@   ensures implies(result2 == nil, result1 != nil && result1.ep != nil)
 //@   modifies everything_but(Stack)
 
-//@ func (*NIC).getRef props C09
+//@ func (*NIC).getRef props C09 C07
 //@   requires n != nil
 //@   requires forall(j, 0, len(n.subnets), tcpip.subnetOK(n.subnets[j]))
 //@   requires forallkey(k, n.endpoints, implies(has(n.endpoints, k), n.endpoints[k] != nil && n.endpoints[k].ep != nil))
@@ -247,7 +247,7 @@ package stack
 // parsed from the packet; the packet is handed to a network endpoint only through a
 // reference the address check (or, with forwarding enabled, the forwarding lookup) gave out,
 // with a route whose local address is that destination - and at most once.
-//@ func (*NIC).DeliverNetworkPacket props C09
+//@ func (*NIC).DeliverNetworkPacket props C09 C07
 //@   requires nicOK(n) && linkEP != nil
 // (the forwarding branch - packets for other hosts handed to another NIC - is not covered)
 //@   requires !n.stack.Forwarding()
@@ -316,7 +316,7 @@ package stack
 //@   nobody
 //@   modifies everything_but(Stack)
 
-//@ func (*NIC).DeliverTransportPacket props C09
+//@ func (*NIC).DeliverTransportPacket props C09 C07
 //@   requires n != nil && n.stack != nil && statsOK(n.stack.stats) && r != nil
 //@   requires n.demux != nil && n.demux.protocol != nil && forallkey(k, n.demux.protocol, implies(has(n.demux.protocol, k), n.demux.protocol[k] != nil))
 //@   requires n.stack.demux != nil && n.stack.demux.protocol != nil && forallkey(k, n.stack.demux.protocol, implies(has(n.stack.demux.protocol, k), n.stack.demux.protocol[k] != nil))
